@@ -57,6 +57,7 @@ pub fn corpus(seed: u64, n: u64) -> Vec<(String, Tree)> {
         .into_iter()
         .filter(|(name, _)| ["kuhn", "shared16", "shared8", "chain8", "rare", "dominated"].contains(&name.as_str()))
         .collect();
+    games.push(("contended5".to_string(), zoo::contended(5)));
     let mut rng = Rng::new(seed ^ 0x9a7);
     for id in 0..n {
         let mut r = rng.fork();
